@@ -153,6 +153,7 @@ class SimTransport(transports._FlowControlMixin, transports.Transport):
         self.bytes_written = 0
         self.write_log = None  # optional list of (time, nbytes)
         self.eof_sent = False
+        self._lost_after_flush = False
         self.id = len(net.all_transports)
         net.open_transports.add(self)
         net.all_transports.append(self)
@@ -217,6 +218,9 @@ class SimTransport(transports._FlowControlMixin, transports.Transport):
             if self.peer is not None:
                 self.net.kick(self.peer)
 
+    def _unflushed(self):
+        return any(item[0] == "data" for _when, item in self.q)
+
     def close(self):
         if self._closing:
             return
@@ -225,10 +229,33 @@ class SimTransport(transports._FlowControlMixin, transports.Transport):
         if not self.eof_sent:
             self.eof_sent = True
             self.net.send(self, None)
-        self._loop.call_soon(self._call_connection_lost, None)
+        # like asyncio's selector transport: connection_lost() is reported once the write buffer has been flushed
+        # (a peer that does not read keeps the closing transport - and wait_closed() - pending)
+        if self._unflushed():
+            self._lost_after_flush = True
+        else:
+            self._loop.call_soon(self._call_connection_lost, None)
 
     def abort(self):
-        self.close()
+        """Hard close: unsent data is discarded and the peer gets a reset instead of an orderly EOF."""
+        if self._conn_lost:
+            return
+        self._closing = True
+        self.eof_sent = True
+        if self.closed_at is None:
+            self.closed_at = self._loop.time()
+        for _when, (kind, chunk) in self.q:
+            if kind == "data":
+                self.inflight -= len(chunk)
+        self.q.clear()
+        if self.timer is not None:
+            self.timer.cancel()
+            self.timer = None
+        peer = self.peer
+        if peer is not None and not peer._conn_lost:
+            self._loop.call_later(self.net.latency(), peer._call_connection_lost,
+                                  ConnectionResetError(errno.ECONNRESET, "Connection reset by peer"))
+        self._loop.call_soon(self._call_connection_lost, None)
 
     def _call_connection_lost(self, exc):
         if self._conn_lost:
@@ -333,6 +360,9 @@ class Net:
             self._deliver(tr, peer, chunk)
         else:
             self._deliver_eof(tr, peer)
+        if tr._lost_after_flush and not tr._conn_lost and not tr._unflushed():
+            tr._lost_after_flush = False
+            self.loop.call_soon(tr._call_connection_lost, None)
         if tr.q:
             self._arm(tr)
 
